@@ -28,6 +28,13 @@ def budget(tier):
 
 
 def gen(R, tier):
+    if R.chance(0.04):
+        # single-hydrogen fragments capping aromatic / aliphatic atoms, listed before or after their anchor
+        from .c09 import gen_h_caps
+        case = gen_h_caps(R, tier)
+        case['features'] = sorted(set(case['features']))
+        case['constructor'] = 'string'
+        return case
     if R.chance(0.2):
         # sulfur next to aromatic rings ('Sc' in the text), descriptors after such letter pairs; lower-case quinoid
         # rings with cut exocyclic double bonds; fused aromatic systems
